@@ -35,10 +35,26 @@ PhaseNext(p, op) ==
     [] OTHER -> {}
 PhaseFinal == {4, 5}
 
+(* two live suites, modes PXfit PXisc PXcov:  [sq(1) sq(2)]  sxo(a, b, p, q)  [sq | sq(1) sq(2)]  smut(a | b)  sq sq(the other one)
+   -- a direct cross_over between two suites that both stay in use, then one of them is mutated and
+   both are asked *)
+LastA == hist[Len(hist)].a
+PhaseNextX(p, act) ==
+  CASE p = 0 -> (IF act.op = "sq" /\ act.a = 1 THEN {1} ELSE {}) \cup (IF act.op = "sxo" THEN {3} ELSE {})
+    [] p = 1 -> IF act.op = "sq" /\ act.a = 2 THEN {2} ELSE {}
+    [] p = 2 -> IF act.op = "sxo" THEN {3} ELSE {}
+    [] p = 3 -> (IF act.op = "sq" THEN {4} ELSE {}) \cup (IF act.op = "smut" THEN {6} ELSE {})
+    [] p = 4 -> (IF act.op = "sq" /\ act.a > LastA THEN {5} ELSE {}) \cup (IF act.op = "smut" THEN {6} ELSE {})
+    [] p = 5 -> IF act.op = "smut" THEN {6} ELSE {}
+    [] p = 6 -> IF act.op = "sq" THEN {7} ELSE {}
+    [] p = 7 -> IF act.op = "sq" /\ act.a # LastA THEN {8} ELSE {}
+    [] OTHER -> {}
+PhaseFinalX == {8}
+
 MCInit == /\ \E mode \in Modes : \E pr \in InitParams(mode) :
                /\ W = InitWorld(mode, pr[1], pr[2], pr[3])
                /\ ip = [sut1 |-> pr[1], regF |-> pr[2], regC |-> pr[3], mode |-> mode,
-                         ns |-> IF mode \in {"T"} \cup FocusC THEN 0 ELSE 1]
+                         ns |-> IF mode \in {"T"} \cup FocusC THEN 0 ELSE IF mode \in PatX THEN 2 ELSE 1]
           /\ obs = NoV
           /\ hist = <<>>
           /\ ph = 0
@@ -50,14 +66,19 @@ MCNext == /\ Len(hist) < DepthOf(W)
                    THEN /\ ph' \in PhaseNext(ph, act.op)
                         \* the second query asks another chromosome than the first
                         /\ (ph = 4 => <<act.op, act.a>> # <<hist[Len(hist)].op, hist[Len(hist)].a>>)
+                   ELSE IF W.mode \in PatX THEN ph' \in PhaseNextX(ph, act)
                    ELSE ph' = ph
           /\ UNCHANGED ip
 
 MCSpec == MCInit /\ [][MCNext]_mcvars
 
-LastAct == IF hist = <<>> THEN A("", 0, 0, 0, 0, "", "") ELSE hist[Len(hist)]
-View == <<W, obs, LastAct, ip, ph, IF W.mode \in Pat THEN hist ELSE <<>>>>
+\* chromosomes own their test cases: the call just made changed the inputs of no other chromosome
+IsolationMC == [][IsolatedP(W, W', hist'[Len(hist')])]_mcvars
 
-Emit == (hist # <<>> /\ IsQuery(LastAct) /\ (W.mode \in Pat => ph \in PhaseFinal)) =>
+LastAct == IF hist = <<>> THEN A("", 0, 0, 0, 0, "", "") ELSE hist[Len(hist)]
+View == <<W, obs, LastAct, ip, ph, IF W.mode \in Pat \cup PatX THEN hist ELSE <<>>>>
+
+Emit == (hist # <<>> /\ IsQuery(LastAct) /\ (W.mode \in Pat => ph \in PhaseFinal)
+           /\ (W.mode \in PatX => ph \in PhaseFinalX)) =>
           PrintT(<<"HIST", ToJson([ip |-> ip, hist |-> hist, pred |-> obs])>>)
 =============================================================================
